@@ -487,3 +487,71 @@ def acpc_pair(tid, spec, rng, pol):
         flags.append([f'protocol output was produced without error ({type(e).__name__}: {str(e)[:100]})', False])
     return {'tid': tid, 'kind': 'acpc', 'A': recA, 'B': recB, 'sync': [], 'flags': flags, 'views': views, 'pluribus': plur,
             'parsed': parsed, 'cut': cut, 'n': n, 'nolimit': nolimit}
+
+
+# ---------------------------------------------------------------------------------------------------------------------
+# C20: the hand rendered as a site log and imported back
+# ---------------------------------------------------------------------------------------------------------------------
+def site_pair(tid, spec, rng, pol, site=None):
+    from pokerkit import HandHistory
+    from . import sites
+    import warnings
+    site = site or rng.choice(list(sites.RENDER))
+    holder = {}
+    recA = walk.play_hand(tid, spec, rng, pol, keep_state=holder)
+    if recA['create']['out'] != 'ok' or 'state' not in holder:
+        return None
+    stA = holder['state']
+    if stA.status:
+        return None
+    n = spec['n']
+    ops = [pk.op_rec(o) for o in stA.operations]
+    went_to_showdown = any(o['k'] == 'SM' for o in ops)
+    if site == 'ipoker' and went_to_showdown:
+        site = rng.choice([s for s in sites.RENDER if s != 'ipoker'])      # no show lines in that format: fold-outs only
+    # seats: increasing round the table, the button (last position; heads-up: the second player) where the site says
+    free = sorted(rng.sample(range(1, 10), n))
+    rot = rng.randrange(n)
+    order = free[rot:] + free[:rot]                       # seat of position 0, 1, ... going round the table
+    if n == 2:
+        seats = [order[0], order[1]]
+    else:
+        seats = order
+    names = rng.sample(sites.NAMES, n)
+    hero = rng.randrange(n)
+    h = sites.Hand({'final_stacks': list(stA.stacks)}, ops, n, [int(x) for x in stA.starting_stacks], seats, names, hero)
+    text = sites.RENDER[site](h)
+    flags = []
+    recB = recA
+    parsed = False
+    try:
+        with warnings.catch_warnings(record=True) as caught:
+            warnings.simplefilter('always')
+            hands = list(getattr(HandHistory, sites.IMPORT[site])(text))
+        reports = [str(w.message) for w in caught if 'Unable to parse' in str(w.message)]
+        flags.append([f'{site}: the log is imported as exactly one hand (reports: {reports[:1]})', len(hands) == 1 and not reports])
+        if len(hands) == 1:
+            hh = hands[0]
+            flags.append([f'{site}: players in position order', list(hh.players or []) == names])
+            flags.append([f'{site}: seats', list(hh.seats or []) == seats])
+            flags.append([f'{site}: blinds', [int(x) for x in hh.blinds_or_straddles] == [int(x) for x in spec['blinds']]])
+            flags.append([f'{site}: starting stacks', [int(x) for x in hh.starting_stacks] == [int(x) for x in stA.starting_stacks]])
+            stB = None
+            with warnings.catch_warnings():
+                warnings.simplefilter('ignore')
+                for stB in hh:
+                    pass
+            recB = raw_record(tid, stB, dict(spec, autos=[a.value for a in stB.automations]))
+            parsed = True
+        # a log that cannot be interpreted is reported and yields no hand
+        bad = text.replace("Hold'em No Limit", 'Omaha Pot Limit').replace("No Limit Hold'em", 'Pot Limit Omaha').replace(
+            "NL Texas Hold'em", 'PL Omaha').replace('NO_LIMIT TEXAS_HOLDEM', 'POT_LIMIT OMAHA').replace('Holdem  No Limit', 'Omaha  Pot Limit')
+        if bad != text:
+            with warnings.catch_warnings(record=True) as caught:
+                warnings.simplefilter('always')
+                hands2 = list(getattr(HandHistory, sites.IMPORT[site])(bad))
+            flags.append([f'{site}: a log of a game it does not know yields no hand and a warning', not hands2 and bool(caught)])
+        flags.append([f'{site}: import and replay without error', True])
+    except Exception as e:  # noqa: BLE001
+        flags.append([f'{site}: import and replay without error ({type(e).__name__}: {str(e)[:100]})', False])
+    return {'tid': tid, 'kind': 'site', 'A': recA, 'B': recB, 'sync': [], 'flags': flags, 'parsed': parsed, 'site': site, 'text': text}
